@@ -330,4 +330,19 @@ class is_flag_active_visitor<Flag, flag_and>""")]),
             // pool (UML Standard 2.3 15.3.14)
             handle_eventless_transitions_helper<library_sm>""", """            const bool step_handled = (handled & HANDLED_TRUE) != 0;
             handle_eventless_transitions_helper<library_sm>""")]),
+ dict(name='refactor-defer-stamp-local', prop='C05', refactor=True, edits=[(B, """        m_deferred_events_queue.m_deferred_events_queue.push_back(
+            std::make_pair(
+                ::boost::bind(
+                    pf, this, e, static_cast<EventSource>(EVENT_SOURCE_DIRECT|EVENT_SOURCE_DEFERRED)),
+                static_cast<char>(m_deferred_events_queue.m_cur_seq+1)));""", """        const char next_seq = static_cast<char>(m_deferred_events_queue.m_cur_seq+1);
+        m_deferred_events_queue.m_deferred_events_queue.push_back(
+            std::make_pair(
+                ::boost::bind(
+                    pf, this, e, static_cast<EventSource>(EVENT_SOURCE_DIRECT|EVENT_SOURCE_DEFERRED)),
+                next_seq));""")]),
+ dict(name='refactor-or-functor-local', prop='C14', refactor=True, edits=[('include/boost/msm/front/operator.hpp', """        return (T1()(evt,fsm,src,tgt) || T2()(evt,fsm,src,tgt));""", """        const bool first = T1()(evt,fsm,src,tgt);
+        return (first || T2()(evt,fsm,src,tgt));""")]),
+ dict(name='refactor-exit-pt-assign-via-static-cast', prop='C15', refactor=True, edits=[(B, """            ExitPoint::operator=(rhs);
+            return *this;""", """            static_cast<ExitPoint&>(*this) = rhs;
+            return *this;""")]),
 ]
